@@ -98,7 +98,7 @@ def history(draw):
     return {"symlink": draw(st.integers(0, 3)) == 0,
             "detect": draw(st.booleans()), "rw": draw(st.booleans()), "buffering": draw(st.sampled_from([-1, 0])),
             "end": draw(st.sampled_from(["close", "with", "with_exc", "facade_with", "close_armed", "with_oserror",
-                                         "facade_with_exc", "facade_with_oserror"])), "ops": ops}
+                                         "facade_with_exc", "facade_with_oserror", "with_fnf", "facade_with_fnf"])), "ops": ops}
 
 
 class Boom(Exception):
@@ -109,7 +109,9 @@ class BoomOS(OSError):
     """an exception of the OSError family leaving a with block (what an unplugged device raises)"""
 
 
-BOOMS = {"with_exc": Boom, "with_oserror": BoomOS, "facade_with_exc": Boom, "facade_with_oserror": BoomOS}
+BOOMS = {"with_exc": Boom, "with_oserror": BoomOS, "facade_with_exc": Boom, "facade_with_oserror": BoomOS,
+         # exactly what an unplugged device raises
+         "with_fnf": FileNotFoundError, "facade_with_fnf": FileNotFoundError}
 
 
 def run_history(case):
@@ -276,6 +278,9 @@ def run_history(case):
                     raise BOOMS[end]("leaving the block")
             except (Boom, BoomOS):
                 pass
+            except FileNotFoundError as e:
+                if "leaving the block" not in str(e):
+                    final_exc = e
             except OSError as e:
                 final_exc = e
             else:
